@@ -30,6 +30,7 @@ CONSTANTS
   MaxConns,      \* dials that succeed, at most
   DialFails, WriteFails, ReadFails, StoreFails,   \* fault budgets
   MaxCalls,      \* ReadSlices invocations, at most (bounds the model)
+  InMsgs,        \* sequence of [qos, tag]: what the broker publishes to the client, in this order
   RecordHist,    \* FALSE in the liveness configurations (hist would make every state distinct)
   DEV_F4, DEV_F6
 
@@ -70,7 +71,9 @@ St0 ==
    subdone |-> [p \in Writers |-> "none"],   \* what a waiting Subscribe received on its done channel
    utxN |-> 0,                               \* unorderedTxs.n
    store |-> <<>>, conns |-> <<>>,
-   broker |-> [session |-> FALSE, awaiting |-> {}, delivered |-> <<>>],
+   broker |-> [session |-> FALSE, awaiting |-> {}, delivered |-> <<>>,
+               out |-> <<>>,       \* deliveries to the client: [id, qos, tag, state] with state sent / rec / done
+               nextIn |-> 1],
    exch |-> <<>>, rets |-> [p \in Procs |-> <<>>],
    abortSt |-> "none", doneClosed |-> FALSE, termLeft |-> 0,
    calls |-> 0,
@@ -317,7 +320,7 @@ Settle(s) ==
     [] at = "r.ret" ->     \* ReadSlices returns the message at the head of the buffer
          LET p == s.inbuf[1]
              s1 == IF p.qos = 1 THEN [s EXCEPT !.pack = Pk("PUBACK", p.id, 0, FALSE, 0)] ELSE s
-         IN [ok |-> TRUE, s |-> [G(RetP(s1, "rd", "ReadSlices", "msg"), "rd", "call") EXCEPT !.loc["rd"].ctx = "returned"]]
+         IN [ok |-> TRUE, s |-> [G(RetP(s1, "rd", p.tag, "msg"), "rd", "call") EXCEPT !.loc["rd"].ctx = "returned"]]
     [] at = "r.pong" ->    \* PINGRESP: a waiting Ping is released (hook pong.slot), else tolerated
          IF s.pingSlot # "" THEN [ok |-> TRUE, s |-> [G(s, "rd", "pong.slot") EXCEPT !.loc["rd"].who = s.pingSlot, !.pingSlot = ""]]
          ELSE [ok |-> TRUE, s |-> NextPacket(s)]
@@ -534,7 +537,17 @@ BrokerReact(s, c) ==
       \* (MQTT-3.1.4-2), so nothing written there is processed any more
       takeover(x) == [x EXCEPT !.conns = [i \in DOMAIN x.conns |->
                          IF i < c THEN [x.conns[i] EXCEPT !.taken = Len(x.conns[i].c2b), !.eof = TRUE] ELSE x.conns[i]]]
-  IN CASE p.t = "CONNECT" -> [takeover(reply(<<Pk("CONNACK", 0, 0, FALSE, 0)>>)) EXCEPT !.broker.session = TRUE]
+      \* on a reconnect the broker retransmits what the client has not acknowledged yet
+      redo == LET pend == SelectSeq(b.out, LAMBDA m : m.state # "done")
+              IN [i \in DOMAIN pend |-> IF pend[i].state = "sent" THEN Pk("PUBLISH", pend[i].id, pend[i].tag, TRUE, pend[i].qos)
+                                         ELSE Pk("PUBREL", pend[i].id, 0, FALSE, 0)]
+      setOut(x, id, from, to) == [x EXCEPT !.broker.out = [i \in DOMAIN x.broker.out |->
+                                   IF x.broker.out[i].id = id /\ x.broker.out[i].state \in from
+                                   THEN [x.broker.out[i] EXCEPT !.state = to] ELSE x.broker.out[i]]]
+  IN CASE p.t = "CONNECT" -> [takeover(reply(<<Pk("CONNACK", 0, 0, FALSE, 0)>> \o redo)) EXCEPT !.broker.session = TRUE]
+       [] p.t = "PUBACK" -> setOut(reply(<<>>), p.id, {"sent"}, "done")
+       [] p.t = "PUBREC" -> setOut(reply(<<Pk("PUBREL", p.id, 0, FALSE, 0)>>), p.id, {"sent", "rec"}, "rec")
+       [] p.t = "PUBCOMP" -> setOut(reply(<<>>), p.id, {"rec"}, "done")
        [] p.t = "PUBLISH" /\ p.qos = 1 -> [reply(<<Pk("PUBACK", p.id, 0, FALSE, 0)>>) EXCEPT !.broker.delivered = Append(@, p.tag)]
        [] p.t = "PUBLISH" /\ p.qos = 2 ->
             IF p.id \in b.awaiting THEN reply(<<Pk("PUBREC", p.id, 0, FALSE, 0)>>)
@@ -546,6 +559,21 @@ BrokerReact(s, c) ==
 
 BrokerMoves(s) ==
   {[s |-> BrokerReact(s, c), c |-> c] : c \in {x \in DOMAIN s.conns : s.conns[x].taken < Len(s.conns[x].c2b) /\ ~s.conns[x].dead /\ ~s.conns[x].eof}}
+
+\* The broker publishes the next message of InMsgs on the live connection (lowest free identifier).
+LiveConn(s) == IF s.conns = <<>> THEN 0 ELSE
+               LET c == Len(s.conns) IN IF s.conns[c].taken > 0 /\ ~s.conns[c].dead /\ ~s.conns[c].eof /\ ~s.conns[c].closed THEN c ELSE 0
+FreeId(s) == CHOOSE i \in 1..(Len(s.broker.out) + 1) : (\A j \in DOMAIN s.broker.out : s.broker.out[j].state = "done" \/ s.broker.out[j].id # i)
+                                                         /\ \A k \in 1..(i - 1) : \E j \in DOMAIN s.broker.out : s.broker.out[j].state # "done" /\ s.broker.out[j].id = k
+PublishMoves(s) ==
+  LET c == LiveConn(s) IN
+  IF c = 0 \/ s.broker.nextIn > Len(InMsgs) THEN {}
+  ELSE LET m == InMsgs[s.broker.nextIn]
+           id == IF m.qos = 0 THEN 0 ELSE FreeId(s)
+           pk == Pk("PUBLISH", id, m.tag, FALSE, m.qos)
+       IN {[s |-> [s EXCEPT !.conns[c].b2c = Append(@, pk), !.broker.nextIn = @ + 1,
+                            !.broker.out = IF m.qos = 0 THEN @ ELSE Append(@, [id |-> id, qos |-> m.qos, tag |-> m.tag, state |-> "sent"])],
+            c |-> c, pk |-> pk]}
 
 (* ----------------------------------------------------------------------- *)
 
@@ -570,12 +598,14 @@ ProcStep(p) ==
 Wake == \E s2 \in TermWake(st) \cup ReqWake(st) : st' = s2 /\ UNCHANGED hist
 BrokerStep == \E b \in BrokerMoves(st) : st' = b.s /\ hist' = IF RecordHist THEN Append(hist, [env |-> "brecv", c |-> b.c, respond |-> TRUE]) ELSE hist
 
-Next == (\E p \in Procs : ProcStep(p)) \/ Wake \/ BrokerStep
+PublishStep == \E b \in PublishMoves(st) : st' = b.s /\ hist' = IF RecordHist THEN Append(hist, [env |-> "bsend", c |-> b.c, pkt |-> b.pk]) ELSE hist
+
+Next == (\E p \in Procs : ProcStep(p)) \/ Wake \/ BrokerStep \/ PublishStep
 Spec == Init /\ [][Next]_vars
 
 (* Fairness: every goroutine that can move eventually does (strongly fair: Go hands a channel value to a     *)
 (* waiting receiver, so a waiter is not overtaken for ever); the broker answers; induced wake-ups happen.   *)
-Fairness == (\A p \in Procs : SF_vars(ProcStep(p))) /\ WF_vars(Wake) /\ WF_vars(BrokerStep)
+Fairness == (\A p \in Procs : SF_vars(ProcStep(p))) /\ WF_vars(Wake) /\ WF_vars(BrokerStep) /\ WF_vars(PublishStep)
 LiveSpec == Spec /\ Fairness
 
 Closers == {p \in Writers : \E i \in DOMAIN Script[p] : Script[p][i].m = "Close"}
@@ -608,6 +638,11 @@ C03_ExactlyOnceDelivery ==  \* no exactly-once message is forwarded twice
 C05_WireOrderIsIdOrder == \A c \in DOMAIN st.conns : Ascending(PubIds(c, 1)) /\ Ascending(PubIds(c, 2))
 C08_WholePackets == \A c \in DOMAIN st.conns : st.conns[c].tail => \E p \in Writers : st.pc[p] \in {"wn.write2", "w.fail"}
 C12_Signals == ~(st.online /\ st.offline)
+\* C04 (design): an exactly-once message whose marker is saved is not returned again before PUBREL
+Returned(tag) == Cardinality({i \in DOMAIN st.rets["rd"] : st.rets["rd"][i].err = "msg" /\ st.rets["rd"][i].m = tag})
+C07_AckedOnlyIfReturned == \A c \in DOMAIN st.conns : \A i \in DOMAIN st.conns[c].c2b :
+   LET p == st.conns[c].c2b[i] IN
+   p.t \in {"PUBACK", "PUBREC"} => \E j \in DOMAIN st.broker.out : st.broker.out[j].id = p.id
 C17_Bounded == Len(st.queue[1]) <= AMax /\ Len(st.queue[2]) <= EMax
 C18_ConnectFirst == \A c \in DOMAIN st.conns : AllPk(c) # <<>> => AllPk(c)[1].t = "CONNECT"
 TypeOK == st.writeSem \in {PENDING, DOWN, HELD, CLOSED} \cup (1..MaxConns) /\ st.connSem \in {NILCONN, HELD, CLOSED} \cup (1..MaxConns)
